@@ -186,8 +186,9 @@ func (matrix *SparseInt8Matrix) SLICE(rfrom, rto, cfrom, cto int) *SparseInt8Mat
   return &m
 }
 func (matrix *SparseInt8Matrix) AsSparseInt8Vector() *SparseInt8Vector {
-  if matrix.cols < matrix.colMax - matrix.colOffset ||
-    (matrix.rows < matrix.rowMax - matrix.rowOffset) {
+  // a view (fewer rows or columns than the storage block) does not own the
+  // underlying vector: collect its elements
+  if matrix.rowMax > matrix.rows || matrix.colMax > matrix.cols {
     n, m := matrix.Dims()
     v := nilSparseInt8Vector(n*m)
     for it := matrix.ConstIterator(); it.Ok(); it.Next() {
